@@ -10,7 +10,11 @@ The observed truth tables / generated formulas are then *fitted* to the paramete
 the observations on EVERY scenario; if no candidate does, the extractor raises (the check then treats the
 proof as broken and searches for a failing input).  So the Lean terms always come from what the current
 source *does*; how it is written (names, statement order, early returns vs nested ifs, helper functions in
-the same class/module, comprehensions vs loops, operand order) is irrelevant.
+the same class/module, comprehensions vs loops, operand order) is irrelevant.  The sandbox keeps
+`staticmethod`/`classmethod`/`property` decorators and class-level constants (a refactor may introduce helper
+methods / tables), and executes imports of a fixed list of pure standard-library modules only (`SAFE_MODULES`,
+also enforced for imports inside function bodies); any other unknown name makes the evaluation fail and the
+extractor raise.
 
 Extracted (all consumed by the model; lists whose order cannot matter — they are only used under any/all/
 membership — are emitted in a fixed canonical order):
@@ -118,12 +122,20 @@ def normalized(fn: ast.FunctionDef) -> str:
     return "\n".join(ast.unparse(s) for s in f.body)
 
 
+KEPT_DECORATORS = ("staticmethod", "classmethod", "property")
+# Pure standard-library modules a refactor may start to use; they are the ONLY imports that are executed
+# (everything else — the repo, its dependencies — is never imported: unknown names make the extractor raise).
+SAFE_MODULES = ("functools", "operator", "itertools", "collections", "collections.abc", "typing", "math", "sys")
+
+
 class _Strip(ast.NodeTransformer):
-    """Drop annotations, decorators and docstrings (nothing of them is evaluated in the sandbox)."""
+    """Drop annotations, docstrings and all decorators but staticmethod/classmethod/property (nothing else of
+    them is evaluated in the sandbox)."""
 
     def visit_FunctionDef(self, node: ast.FunctionDef) -> ast.AST:
         node.returns = None
-        node.decorator_list = []
+        # only the builtin method decorators change how a helper is *called*; they are kept
+        node.decorator_list = [d for d in node.decorator_list if isinstance(d, ast.Name) and d.id in KEPT_DECORATORS]
         for a in node.args.posonlyargs + node.args.args + node.args.kwonlyargs:
             a.annotation = None
         if node.args.vararg:
@@ -255,7 +267,16 @@ class ConnectionManager:
 def load_module(tree: ast.Module, ns: dict, skip_classes: tuple[str, ...] = ()) -> None:
     """Define the module's functions and classes (methods only) in `ns`.  Imports are not executed."""
     for stmt in tree.body:
-        if isinstance(stmt, ast.FunctionDef):
+        if isinstance(stmt, ast.Import):
+            for a in stmt.names:
+                if a.name in SAFE_MODULES and (a.asname or a.name.split(".")[0]) not in ns:
+                    _exec([ast.Import(names=[ast.alias(name=a.name, asname=a.asname)])], ns)
+        elif isinstance(stmt, ast.ImportFrom):
+            if stmt.level == 0 and stmt.module in SAFE_MODULES:
+                for a in stmt.names:
+                    if a.name != "*" and (a.asname or a.name) not in ns:
+                        _exec([ast.ImportFrom(module=stmt.module, names=[ast.alias(name=a.name, asname=a.asname)], level=0)], ns)
+        elif isinstance(stmt, ast.FunctionDef):
             _exec([_Strip().visit(copy.deepcopy(stmt))], ns)
         elif isinstance(stmt, ast.ClassDef):
             if stmt.name in skip_classes:
@@ -267,13 +288,24 @@ def load_module(tree: ast.Module, ns: dict, skip_classes: tuple[str, ...] = ()) 
                     if b.id not in ("ABC", "Generic"):
                         bases.append(ast.Name(id=b.id, ctx=ast.Load()))
             body: list[ast.stmt] = []
+            consts: list[tuple[str, ast.expr]] = []
             for s in stmt.body:
                 if isinstance(s, ast.FunctionDef):
                     body.append(_Strip().visit(copy.deepcopy(s)))
+                elif isinstance(s, (ast.Assign, ast.AnnAssign)) and getattr(s, "value", None) is not None:
+                    t = s.targets[0] if isinstance(s, ast.Assign) else s.target
+                    if isinstance(t, ast.Name):
+                        consts.append((t.id, s.value))
             cls = ast.ClassDef(name=stmt.name, bases=bases, keywords=[], body=body or [ast.Pass()], decorator_list=[])
             if sys.version_info >= (3, 12):
                 cls.type_params = []
             _exec([cls], ns)
+            for cname, value in consts:      # class-level constants (a table a refactor may introduce)
+                try:
+                    setattr(ns[stmt.name], cname, eval(compile(ast.fix_missing_locations(  # pylint: disable=eval-used
+                        ast.Expression(body=copy.deepcopy(value))), "<extracted>", "eval"), ns))
+                except Exception:  # pylint: disable=broad-except
+                    pass   # a class attribute the evaluated functions do not need (else: AttributeError -> raise)
         elif isinstance(stmt, (ast.Assign, ast.AnnAssign)):
             tgt = stmt.targets[0] if isinstance(stmt, ast.Assign) else stmt.target
             if isinstance(tgt, ast.Name) and getattr(stmt, "value", None) is not None:
@@ -281,6 +313,20 @@ def load_module(tree: ast.Module, ns: dict, skip_classes: tuple[str, ...] = ()) 
                     _exec([ast.Assign(targets=[ast.Name(id=tgt.id, ctx=ast.Store())], value=copy.deepcopy(stmt.value))], ns)
                 except Exception:  # pylint: disable=broad-except
                     pass   # a module constant the evaluated functions do not need
+
+
+def _sandbox_builtins() -> dict:
+    """The builtins of the sandbox: `import` (also inside a function body) reaches the SAFE_MODULES only."""
+    import builtins  # pylint: disable=import-outside-toplevel
+
+    real_import = builtins.__import__
+
+    def guarded_import(name, globals=None, locals=None, fromlist=(), level=0):  # pylint: disable=redefined-builtin
+        if level != 0 or name not in SAFE_MODULES:
+            raise Shape(f"the evaluated code imports `{'.' * level}{name}` (only {', '.join(SAFE_MODULES)} are available)")
+        return real_import(name, globals, locals, fromlist, level)
+
+    return dict(vars(builtins), __import__=guarded_import)
 
 
 def _exec(stmts: list[ast.stmt], ns: dict) -> None:
@@ -363,6 +409,10 @@ def scenario_specs() -> list[list]:
     for k in list(DEVICES) + ["hybInv"]:
         specs.append([leaf(k)])
         specs.append([leaf(k), meter(leaf("ev"), meter())])
+    # several dedicated meters of the same device type side by side (accumulation over meters, not only over devices)
+    for k in DEVICES:
+        specs.append([meter(leaf(k)), meter(leaf(k), leaf(k))])
+        specs.append([meter(meter(leaf(k)), meter(leaf(k), leaf(k)), meter(leaf(k)))])
     specs.append([meter(meter(leaf("pvInv"), leaf("pvInv")), meter(leaf("batInv"), leaf("batInv")), meter(leaf("ev")),
                         meter(leaf("chp")), leaf("pvInv"), leaf("batInv"), leaf("ev"), leaf("chp"), leaf("hybInv"),
                         meter(leaf("ev"), leaf("batInv"), meter()))])
@@ -379,6 +429,7 @@ class Sandbox:
         self.IT = EnumNS("InverterType", list(INVTYPES))
         self.cm = ConnectionManager()
         base = {
+            "__builtins__": _sandbox_builtins(),
             "ComponentCategory": self.CC, "InverterType": self.IT, "Component": Component,
             "ComponentMetricId": EnumNS("ComponentMetricId", None), "Connection": Dummy,
             "sys": sys, "itertools": itertools, "logging": Dummy(), "_logger": Dummy(), "nx": Dummy(),
@@ -442,14 +493,17 @@ def unique(cands: list, what: str):
     return cands[0]
 
 
-def ref_dfs(sc: Scenario, start: int, cond) -> set[int]:
-    """Stop at the first match, union over the successors (trees: no visited set needed)."""
+def ref_dfs(sc: Scenario, start: int, cond, visited: frozenset[int] = frozenset()) -> set[int]:
+    """Stop at the first match, union over the successors; nodes already in `visited` yield nothing
+    (on trees a node is reached once, so the set never has to grow during the search)."""
+    if start in visited:
+        return set()
     c = sc.comp(start)
     if cond(c):
         return {start}
     out: set[int] = set()
     for k in sc.children[start]:
-        out |= ref_dfs(sc, k, cond)
+        out |= ref_dfs(sc, k, cond, visited)
     return out
 
 
@@ -625,6 +679,15 @@ def generate(repo: pathlib.Path) -> str:  # noqa: C901  pylint: disable=too-many
                 got = sc.graph.dfs(sc.comp(start), set(), cond)
                 need({c.component_id for c in got} == ref_dfs(sc, start, cond),
                      "dfs: no longer `stop at the first match, union over the successors`")
+                # the caller-supplied visited set prunes the search (Model: dfsV) and receives the visited nodes
+                kids = sc.children[start]
+                for pre in ([start], kids[:1], kids[-1:] + [g for k in kids[:1] for g in sc.children[k][:1]]):
+                    seen = {sc.comp(i) for i in pre}
+                    got = sc.graph.dfs(sc.comp(start), seen, cond)
+                    need({c.component_id for c in got} == ref_dfs(sc, start, cond, frozenset(pre)),
+                         "dfs: components in the caller's `visited` set are no longer skipped")
+                    need(start in {c.component_id for c in seen} and {c.component_id for c in got} <= {c.component_id for c in seen},
+                         "dfs: the visited nodes are no longer added to the caller's `visited` set")
     out.append("/-- `dfs` behaves as modelled (stop at the first match, union over the successors) on every scenario. -/")
     out.append("def dfsShapeChecked : Bool := true")
     out.append("")
